@@ -5,6 +5,7 @@
 From Coq Require Import Reals Lra List.
 From PV Require Import Num PyBase Model.Component Model.Mixture Model.Permeance Model.Solver Model.Process Model.Curve
   Lemmas.Composition Lemmas.Activity Lemmas.Solver Lemmas.Process Lemmas.Swap.
+From PV Require Import Model.Curve Lemmas.SwapSolve Lemmas.SwapCurve.
 Import ListNotations.
 Local Open Scope R_scope.
 
@@ -57,6 +58,71 @@ Theorem C06_ideal_processes kind (m : Mixture ROps) (cd : Conditions ROps) (dt p
   run_from ROps kind (swap_mixture m) cd dt prec ct slv' perm f1 f2 FR1 FR2 n k (swap_st st) = Ok (map swap_row rows).
 Proof. intros Hk H1 H2 H3. exact (run_swap kind Hk m cd dt prec ct slv slv' perm f1 f2 FR1 FR2 H1 H2 H3 n k st rows). Qed.
 
+(* ---- the driving-force law, the whole flux solver, curves and their metrics ---- *)
+(* the driving-force law of the relabelled system (permeances exchanged, both compositions p -> 1-p) returns the exchanged
+   flux pair, in every permeate mode, for NRTL and for corrected UNIQUAC *)
+Theorem C06_driving_force spec (m : Mixture ROps) (a : FluxArgs ROps) :
+  sym_model spec (fa_ct a) -> vp_defined m (fa_T a) -> (forall tp, fa_Tp a = Some tp -> vp_defined m tp) ->
+  0 < mw (c1 m) -> 0 < mw (c2 m) -> interior (fa_x a) -> interior (fa_y a) ->
+  fluxes_from_permeate_gen ROps spec false (swap_mixture m) (swap_fargs a)
+  = swap_res (fluxes_from_permeate_gen ROps spec false m a).
+Proof. exact (fluxes_swap spec m a). Qed.
+
+(* the complete flux calculation (initial guess, fixed-point iteration up to the cap, final evaluation): exchanged
+   fluxes, or the same error, whenever permeation stays in the forward direction for both components along the iteration *)
+Theorem C06_flux_solver spec (m : Mixture ROps) perm perm' (a : SolveArgs ROps) P1 P2 :
+  sa_P1 a = Some P1 -> sa_P2 a = Some P2 ->
+  sym_model spec (sa_ct a) -> vp_defined m (sa_T a) -> (forall tp, sa_Tp a = Some tp -> vp_defined m tp) ->
+  0 < mw (c1 m) -> 0 < mw (c2 m) -> interior (sa_x a) -> 0 < pval P1 -> 0 < pval P2 ->
+  (forall pf, partial_pressures_gen ROps spec (sa_T a) m (sa_x a) (sa_ct a) = Ok pf -> 0 < fst pf /\ 0 < snd pf) ->
+  (forall y J, interior y -> fluxes_from_permeate_gen ROps spec false m (mk_flux_args ROps a (P1, P2) y) = Ok J -> 0 < fst J /\ 0 < snd J) ->
+  solve_gen ROps spec false (swap_mixture m) perm' (swap_sargs a) = swap_res (solve_gen ROps spec false m perm a).
+Proof. exact (solve_swap spec m perm perm' a P1 P2). Qed.
+
+(* a DiffusionCurve built from (positive) fluxes, and the ideal diffusion curve of a membrane: exchanged fluxes and
+   permeances at the mirrored compositions, in every permeate mode *)
+Theorem C06_curve_from_fluxes (PP PP' : PPfun ROps) (m : Mixture ROps) T xs Js Tp pp :
+  (forall T x ct, interior x -> PP' T (swap_comp x) ct = swap_res (PP T x ct)) -> 0 < mw (c1 m) -> 0 < mw (c2 m) ->
+  Forall interior xs -> Forall pos Js ->
+  mk_curve ROps PP' (swap_mixture m) (Build_CurveIn ROps T (map swap_comp xs) (Some (map swap_pair Js)) Tp pp None)
+  = lift swap_curve (mk_curve ROps PP m (Build_CurveIn ROps T xs (Some Js) Tp pp None)).
+Proof. intros H H1 H2. exact (mk_curve_fluxes_swap PP PP' m H H1 H2 T xs Js Tp pp). Qed.
+
+Theorem C06_ideal_diffusion_curve (PP PP' : PPfun ROps) (m : Mixture ROps) (slv slv' : SolveArgs ROps -> res (R * R)) T xs Tp pp prec ct :
+  (forall T x ct, interior x -> PP' T (swap_comp x) ct = swap_res (PP T x ct)) -> 0 < mw (c1 m) -> 0 < mw (c2 m) ->
+  (forall a, slv' (swap_sargs a) = swap_res (slv a)) -> (forall a J, slv a = Ok J -> pos J) -> Forall interior xs ->
+  ideal_diffusion_curve ROps PP' (swap_mixture m) slv' T (map swap_comp xs) Tp pp prec ct
+  = lift swap_curve (ideal_diffusion_curve ROps PP m slv T xs Tp pp prec ct).
+Proof. intros H H1 H2. exact (ideal_curve_swap PP PP' m H H1 H2 slv slv' T xs Tp pp prec ct). Qed.
+
+(* the real partial-pressure function satisfies the mirror hypothesis of the two theorems above *)
+Theorem C06_real_partial_pressures (m : Mixture ROps) T x ct : sym_model false ct -> vp_defined m T ->
+  0 < mw (c1 m) -> 0 < mw (c2 m) -> interior x ->
+  real_PP ROps (swap_mixture m) T (swap_comp x) ct = swap_res (real_PP ROps m T x ct).
+Proof. intros Hs Hv H1 H2 Hx. exact (pp_swap false T m x ct Hs Hv H1 H2 Hx). Qed.
+
+(* separation metrics invert: selectivity and separation factor of a curve, mass-based selectivity of a process row;
+   the separation index keeps its total flux *)
+Theorem C06_curve_selectivity (m : Mixture ROps) (c : Curve ROps) : 0 < mw (c1 m) -> 0 < mw (c2 m) -> Forall wf_pos (cv_P c) ->
+  curve_selectivity ROps (swap_mixture m) (swap_curve c) = lift (map (fun s => 1 / s)) (curve_selectivity ROps m c).
+Proof. exact (curve_selectivity_swap m c). Qed.
+
+Theorem C06_curve_separation_factor (m : Mixture ROps) (c : Curve ROps) : 0 < mw (c1 m) -> 0 < mw (c2 m) ->
+  Forall interior (cv_xs c) -> Forall pos (cv_J c) ->
+  curve_separation_factor ROps (swap_mixture m) (swap_curve c) = lift (map (fun s => 1 / s)) (curve_separation_factor ROps m c).
+Proof. exact (curve_separation_factor_swap m c). Qed.
+
+Theorem C06_process_selectivity (P : Permeance ROps * Permeance ROps) : pval (fst P) <> 0 -> pval (snd P) <> 0 ->
+  process_selectivity ROps (swap_pair P) = 1 / process_selectivity ROps P.
+Proof. exact (process_selectivity_swap P). Qed.
+
+Theorem C06_psi_total_flux (J : R * R) sf : process_psi ROps (swap_pair J) sf = process_psi ROps J sf.
+Proof. exact (process_psi_swap J sf). Qed.
+
 Print Assumptions C06_ideal_processes.
 Print Assumptions C06_partial_pressures.
 Print Assumptions C06_solver_loop.
+
+Print Assumptions C06_flux_solver.
+Print Assumptions C06_ideal_diffusion_curve.
+Print Assumptions C06_curve_separation_factor.
